@@ -191,7 +191,9 @@ impl SchedKind {
 fn shuttle_config() -> shuttle::Config {
     let mut c = shuttle::Config::new();
     c.stack_size = 0x80000;
-    c.max_steps = shuttle::MaxSteps::None; // soak runs take millions of steps; hangs are the watchdog's job
+    // soak runs take millions of steps; an execution that needs more than 5*10^7 (a spin-wait the
+    // scheduler keeps preferring, a livelock) is abandoned and the next one started
+    c.max_steps = shuttle::MaxSteps::ContinueAfter(50_000_000);
     c.failure_persistence = shuttle::FailurePersistence::None;
     c.silence_warnings = true;
     c
@@ -1058,7 +1060,7 @@ fn cmd_driver(args: &[String]) -> i32 {
     let out = PathBuf::from(arg_val(args, "--out").unwrap_or_else(|| "/verif/build/tmp/c16_shuttle.json".into()));
     let scratch = out.parent().unwrap().join(format!("c16s-{}", std::process::id()));
     let _ = std::fs::create_dir_all(&scratch);
-    let timeout_s: u64 = arg_val(args, "--chunk-timeout").and_then(|x| x.parse().ok()).unwrap_or(300);
+    let timeout_s: u64 = arg_val(args, "--chunk-timeout").and_then(|x| x.parse().ok()).unwrap_or(if tier == "thorough" { 600 } else { 120 });
     let ncold: u64 = arg_val(args, "--cold").and_then(|x| x.parse().ok()).unwrap_or(if tier == "thorough" { 200_000 } else { 6_000 });
     let t0 = std::time::Instant::now();
     let nchunks = (runs + chunk - 1) / chunk;
@@ -1092,7 +1094,8 @@ fn cmd_driver(args: &[String]) -> i32 {
     // library keeps in plain statics (hand-rolled lazy initialisation, caches) is cold every
     // time; numbered after the warm chunks so that the merge order stays deterministic
     let warm_bad = results.iter().any(|(_, (c, _))| *c != 0);
-    if !warm_bad && ncold > 0 {
+    let engine_stuck = inconclusive.len() >= 3;
+    if !warm_bad && ncold > 0 && !engine_stuck {
         let (exe, tier) = (exe.clone(), tier.clone());
         let mk = move |n: u64, of: &Path| {
             let mut c = std::process::Command::new(&exe);
@@ -1117,7 +1120,7 @@ fn cmd_driver(args: &[String]) -> i32 {
     }
     let nsoak: u64 = arg_val(args, "--soak").and_then(|x| x.parse().ok()).unwrap_or(if tier == "thorough" { 480 } else { 48 });
     let bad_so_far = results.iter().any(|(_, (c, _))| *c != 0);
-    if !bad_so_far && nsoak > 0 {
+    if !bad_so_far && nsoak > 0 && !engine_stuck {
         let (exe, tier) = (exe.clone(), tier.clone());
         let mk = move |n: u64, of: &Path| {
             let mut c = std::process::Command::new(&exe);
